@@ -553,6 +553,12 @@ def empty_case(rng, i):
         if k < 0.35:
             return " " * rng.randint(1, 6)
         return " " * rng.randint(0, 3) + "#" + rng.choice(["", " "]) + rng.choice(COMMENT_TEXTS) + " " * rng.randint(0, 2)
+    if i < 6:
+        # the bare marker: a comment with no text is still a comment
+        text = ["#", " #", "#  ", "   #   ", "#\n#", "a = 4\n#\na * 2"][i]
+        empties = [k for k, l in enumerate(text.split("\n")) if l.strip() == "#"]
+        return {"ops": [{"op": "exec", "lang": "en", "text": text}],
+                "meta": {"kind": "bare-marker", "empty": [empties], "nlines": text.count("\n") + 1, "rewrites": []}}
     if i % 3 == 0:
         lines, expect = [noise()], [None]
         ops = [{"op": "exec", "lang": rng.choice(["en", "en", "tr"]), "text": lines[0]}]
